@@ -976,6 +976,16 @@ def fam_faults(rng, n, dist, thorough=False):
             scn["exp"] = [dict(e, throws=False, may_throw=False, check_open=False) for e in scn["exp"]]
             dist.add("fault:garbled-%d-reply" % (229 if rfc else 227))
             out.append(scn)
+    # listings that stop anywhere inside a line terminator (the server closed between CR and LF, or sends bare CRs): the text
+    # is returned as it arrived, the call ends like any other
+    for k, text in enumerate([b"a\r\nb\r", b"\r", b"x\r", b"a\r\n\r", b"\r\r", b"a\n\r", b"\n", b"a\r\nb"]):
+        b = S.Builder(rng, *ALL_METHODS[k % 4], type="IA"[k % 2])
+        b.connect(login=(b"u", b"p"))
+        b.transfer("F", None, payload_segs=[text], names=(k % 3 == 0), completion=rng.choice(["now", "on_close"]))
+        b.simple(b"NOOP", None, 200)
+        b.disconnect(True)
+        dist.add("fault:listing-ends-inside-a-line-terminator")
+        out.append(b.scenario())
     # the server opens (active) / accepts (passive) the data connection, resets it at once and still answers the transfer
     # command positively: the client finds a dead socket at accept / at its first read - an ftp_exception like any other
     for k in range(8 if not thorough else 16):
